@@ -23,7 +23,7 @@ var standingAssumptions = []string{
 }
 
 func writeEvidence(o Options, seed int, wall float64, obligations, discharged, violations int, functions []string, perObl, knownEv []map[string]any,
-	notes, trusted, problems []string, solverS float64, groups map[string]*group, order []string) {
+	notes, trusted, problems []string, solverS float64, groups map[string]*group, order []string, models, deps []string) {
 	var samples []any
 	n := 0
 	for _, name := range order {
@@ -57,6 +57,9 @@ func writeEvidence(o Options, seed int, wall float64, obligations, discharged, v
 	for _, t := range trusted {
 		tb = append(tb, "trusted contract: "+t)
 	}
+	for _, m := range models {
+		tb = append(tb, "assumed model contract of an interface method (in-repo implementations are not verified against it): "+m)
+	}
 	cmd := fmt.Sprintf("/verif/bin/govc check -repo %s -specs %s -prop %s -tier %s", o.Repo, o.Specs, o.Prop, o.Tier)
 	if o.Sweep {
 		cmd += " -sweep"
@@ -73,6 +76,8 @@ func writeEvidence(o Options, seed int, wall float64, obligations, discharged, v
 			"trusted_base":             tb,
 			"samples":                  samples,
 			"functions_under_contract": functions,
+			"dependency_functions":     deps,
+			"assumed_interface_models": models,
 			"per_obligation":           perObl,
 			"backends":                 backends,
 			"solver_time_s":            solverS,
